@@ -141,6 +141,20 @@ class Vertex(base.BaseObject):
         """
         return tuple(self._links)
 
+    def _cache_stats(self) -> list[int]:
+        """
+        Get this vertex's cache statistics record, creating it if need be.
+
+        **FOR INTERNAL USE ONLY!!**
+
+        The record is normally created by ``__init__`` -- but unpickling does
+        not run ``__init__``, so a vertex loaded into another interpreter has
+        no record there until it first needs one.
+
+        :return: the ``[hits, misses, invalidations, insertions]`` record
+        """
+        return self._CACHE_STATS.setdefault(self.uid, [0, 0, 0, 0])
+
     def _qa_neighbors_get(self, *args):
         """
         Check for and return quick-access neighbors cache data.
@@ -159,11 +173,11 @@ class Vertex(base.BaseObject):
             return self._QA_NB_INVALID
 
         if args in self.__qa_nb_cache:
-            self._CACHE_STATS[self.uid][0] += 1
+            self._cache_stats()[0] += 1
 
             return self.__qa_nb_cache[args]
 
-        self._CACHE_STATS[self.uid][1] += 1
+        self._cache_stats()[1] += 1
         return self._QA_NB_INVALID
 
     def _qa_neighbors_invalidate(self):
@@ -179,7 +193,7 @@ class Vertex(base.BaseObject):
         """
         if not self.NEIGHBOR_CACHING:
             return
-        self._CACHE_STATS[self.uid][2] += 1
+        self._cache_stats()[2] += 1
         self.__qa_nb_cache = {}
 
     def _qa_neighbors_insert(self, answer, *args):
@@ -196,7 +210,7 @@ class Vertex(base.BaseObject):
         """
         if not self.NEIGHBOR_CACHING:
             return
-        self._CACHE_STATS[self.uid][3] += 1
+        self._cache_stats()[3] += 1
         self.__qa_nb_cache[args] = answer
 
     def add_to_link(self, link: Link):
